@@ -161,6 +161,11 @@ fn record(a: &Args) {
                 mult[e] = mult[e].max(c[e]);
             }
         }
+        if mult.iter().any(|c| *c >= 16) {
+            // the pair tables are measured with an auxiliary instance of l' = multiplicity, and the sketcher asserts l < 16:
+            // a case the driver must not generate (a limit of this harness, not an observation about the code)
+            tool_error("a recorded case has an element with 16 or more occurrences");
+        }
         let hasher = case["hasher"].as_str().unwrap_or("fnv").to_string();
         let emode = case["elems"].as_str().unwrap_or("random").to_string();
         let small = emode == "small";
